@@ -64,7 +64,11 @@ def nonOverlapping (c : IClosed) : List Iv → Bool
 def rollingMean (f : Stairs Rat) (l r : Rat) (lo hi : Option Rat) : Except Err (List (Rat × Val)) := do
   let c ← clipW f lo hi
   match c.steps with
-  | [] => .error .assertion   -- the code returns a two-point Series indexed by `where`; not modelled
+  | [] =>
+    -- nothing to roll over: the code returns the constant at the two ends of `where`
+    match lo, hi with
+    | some a, some b => pure [(a, c.init), (b, c.init)]
+    | _, _ => .error .assertion
   | _ =>
     let sp := c.idx
     let pts := unionIdx (sp.map (· - l)) (sp.map (· - r))
